@@ -59,7 +59,9 @@ SumSeq(q) == IF q = <<>> THEN 0 ELSE Head(q) + SumSeq(Tail(q))
 (*    refreq  (v5) reference-id request, n payload bytes, q = in | out     *)
 (*            (requested window inside / outside the 512-byte filter)      *)
 (*    pad     (v5) padding field                                           *)
-(*    auth    NTS authenticator, q = ok | wrongKey | tampered | short;     *)
+(*    auth    NTS authenticator, q = ok | wrongKey | tampered | short      *)
+(*            (8 bytes, nonce length beyond the field) | empty (8 bytes,   *)
+(*            zero-length nonce and ciphertext: well-formed, cannot verify)*)
 (*            n = 256 | 512: algorithm of the c2s key it is sealed with;   *)
 (*            enc = the encrypted fields (never auth themselves)           *)
 (*    bad     malformed field occupying 4+n bytes, q = len0 | len3 | over  *)
@@ -71,7 +73,7 @@ RECURSIVE SumInner(_)
 SumInner(q) == IF q = <<>> THEN 0 ELSE InnerWire(Head(q)) + SumInner(Tail(q))
 
 \* bytes the item occupies on the wire. authenticator: 4 header + 4 lengths + 16 nonce + plaintext + 16 tag
-Wire(f) == IF f.k = "auth" THEN (IF f.q = "short" THEN 8 ELSE 40 + SumInner(f.enc)) ELSE Pad4(4 + f.n)
+Wire(f) == IF f.k = "auth" THEN (IF f.q \in {"short", "empty"} THEN 8 ELSE 40 + SumInner(f.enc)) ELSE Pad4(4 + f.n)
 RECURSIVE SumWire(_)
 SumWire(q) == IF q = <<>> THEN 0 ELSE Wire(Head(q)) + SumWire(Tail(q))
 
